@@ -113,7 +113,7 @@ def check_mass_naming(ctx: Check, tree: Tree) -> None:
     inl = Inliner(fn.node)
     ret = next(r for r in walk_function(fn.node) if isinstance(r, ast.Return))
     txt = unparse(inl.expr(ret.value)).replace(" ", "")
-    ok = "sorted(determine_attached_final_state(topology,state_id))" in txt and txt.startswith("sp.Symbol(f'm_{") and "nonnegative=True" in txt
+    ok = "sorted(determine_attached_final_state(topology,state_id))" in txt and txt.startswith("sp.Symbol(f'm_{") and "nonnegative=True" in txt  # state_id/topology are parameters
     ctx.verdict(ok, "R-TERM", f"{fn.qual}::name", tree.loc(fn.node),
                 "get_invariant_mass_symbol: name = 'm_' + sorted attached final-state ids of that state, nonnegative", None if ok else txt[:200])
     cm = tree.func(f"{LOR}::compute_invariant_masses")
@@ -122,9 +122,13 @@ def check_mass_naming(ctx: Check, tree: Tree) -> None:
     if len(stores) != 1:
         raise AnalysisError("compute_invariant_masses: expected one store")
     st = stores[0]
-    val = unparse(inl.expr(st.value)).replace(" ", "")
-    key = unparse(inl.expr(st.targets[0].slice)).replace(" ", "")
-    ok = val == "InvariantMass(ArraySum(*[four_momenta[i]foriindetermine_attached_final_state(topology,state_id)]))" and key == "get_invariant_mass_symbol(topology,state_id)"
+    from ..canon import canon, local_names
+
+    locs = local_names(cm.node)
+    mapping: dict = {}
+    key = canon(inl.expr(st.targets[0].slice), locs, mapping).replace(" ", "")
+    val = canon(inl.expr(st.value), locs, mapping).replace(" ", "")
+    ok = val == "InvariantMass(ArraySum(*[four_momenta[_1]for_1indetermine_attached_final_state(topology,_0)]))" and key == "get_invariant_mass_symbol(topology,_0)"
     ctx.verdict(ok, "R-TERM", f"{cm.qual}::store", tree.loc(st),
                 "compute_invariant_masses: m_<ids of state> := InvariantMass(sum of the momenta of exactly those ids), for every edge of the topology",
                 None if ok else {"key": key[:120], "value": val[:160]})
@@ -133,8 +137,9 @@ def check_mass_naming(ctx: Check, tree: Tree) -> None:
     ctx.verdict(ok, "R-TERM", f"{cm.qual}::all-edges", tree.loc(loop) if loop is not None else tree.loc(cm.node), "compute_invariant_masses iterates all edges of the topology")
     # attached final state: the id itself for a final state, else the sorted originating final-state ids
     da = tree.func("ampform.helicity.decay::determine_attached_final_state")
-    rets = [unparse(r.value).replace(" ", "") for r in walk_function(da.node) if isinstance(r, ast.Return)]
-    ok = rets == ["[state_id]", "sorted(topology.get_originating_final_state_edge_ids(edge.ending_node_id))"]
+    dinl = Inliner(da.node)
+    rets = [unparse(dinl.expr(r.value)).replace(" ", "") for r in walk_function(da.node) if isinstance(r, ast.Return)]
+    ok = rets == ["[state_id]", "sorted(topology.get_originating_final_state_edge_ids(topology.edges[state_id].ending_node_id))"]
     ctx.verdict(ok, "R-TERM", f"{da.qual}::definition", tree.loc(da.node), "determine_attached_final_state: [id] for a final state, else sorted final-state ids below its ending node", None if ok else rets)
 
 
